@@ -1528,7 +1528,7 @@ class NetWorld(World):
         self.model[to] = {"nodes": {v: list(m["nodes"][v]) for v in nids},
                           "edges": [_copy.deepcopy(by_id[i]) for i in ids], "fw": None, "index": None,
                           "prepared": None, "ptable": None, "grown_since_prepare": False, "exact": m["exact"],
-                          "all_abs": m["all_abs"], "shared": True}
+                          "all_abs": m["all_abs"], "shared": True, "ragged": m.get("ragged", False)}
         m["shared"] = True
         self.groupc = getattr(self, "groupc", 0) + 1
         gid = m.get("group") or self.groupc
